@@ -9,7 +9,7 @@ VERIF = os.path.dirname(os.path.dirname(os.path.abspath(__file__)))
 ENGINE_TEXT = {
     "fvsim": "deterministic simulation of call histories on fixed_vector<T> with instrumented element types; enumerated element-throw / allocation faults; bounded-sequence reference model",
     "ownsim": "deterministic simulation of call histories on quaint_ptr / vector<quaint_ptr> / optional<T> with instance-counting payloads; enumerated payload-constructor / allocation faults; ownership-table reference model",
-    "logsim": "seeded serialising scheduler over parked real threads; pthread_mutex_* wrapped at link time; not-thread-safe simulated stream buffer behind cout/cerr; simulated clock; runtime threshold flips; real nitro::log front end",
+    "logsim": "seeded serialising scheduler over parked real threads; pthread_mutex_* wrapped at link time; not-thread-safe simulated stream buffer behind cout/cerr; simulated clock; runtime threshold flips; a seventh build variant compiled with TSan instrumentation and a stand-in runtime makes atomic operations yield points; real nitro::log front end",
     "optsim": "deterministic simulation of sessions on one long-lived options parser (declare / move / env change / parse, aborted parses, allocation faults) against a freshly built twin and a declaration table",
     "usagesim": "simulated target streams (non-seekable, offset, pre-filled, tiny buffers, chunked, failing) for parser::usage(); text must be identical on every stream",
     "dlsim": "simulated dynamic loader attached with -Wl,--wrap (handle table, reference counts, pending error string, failing opens/lookups, NULL symbols, stale errors), a second configuration forwarding to the real loader, plus the real process environment; enumerated allocation faults",
